@@ -116,6 +116,7 @@ let parse_op (toks : string list) : op =
   | ["hflush"; r] -> OHFlush (nat r)
   | ["hdrop"; r] -> OHDrop (nat r)
   | ["hreadtoend"; r] -> OHReadToEnd (nat r)
+  | ["setsame"; _; _] -> ONop
   | ["setfault"; id; k] -> OSetFault (nat id, nat k)
   | ["setiofault"; m] -> OSetIo (match m with "r" -> IoReads | "w" -> IoWrites | _ -> IoAll)
   | ["clearlog"] -> OClearLog
